@@ -252,12 +252,8 @@ Proof. unfold read33. destruct (Nat.eqb_spec (length sl) 33); split; try congrue
 (* ------------------------------------------------------------------------------------------------ TaprootBuilder *)
 (* since c723f02 finalize has no panic left, whatever the state — API-built or produced by serde *)
 Lemma finalize_p_total b s : finalize_p b <> Taproot.Panic s.
-Proof. unfold finalize_p, finalize_fixed. destruct (1 <? _)%nat; [discriminate|]. destruct b as [|[n|] r]; try discriminate;
+Proof. unfold finalize_p, Taproot.finalize. destruct (1 <? _)%nat; [discriminate|]. destruct b as [|[n|] r]; try discriminate;
   unfold from_node_info, new_key_spend, tap_tweak; cbn; discriminate. Qed.
-(* on every state whose last slot is filled (all API-built ones: run_head_some) it is Model/Taproot.finalize *)
-Lemma finalize_p_is_taproot b : (b = [] \/ exists n r, b = Some n :: r) ->
-  finalize_p b = Taproot.finalize triv (fun _ => true) (fun _ _ => Some ([], false)) b [].
-Proof. intros [->|(n & r & ->)]; reflexivity. Qed.
 Lemma finalize_p_serde : finalize_p [None] = Taproot.Fail IncompleteTree. Proof. reflexivity. Qed.
 
 (* ------------------------------------------------------------------------------------------------ blech32 decode *)
